@@ -201,7 +201,7 @@ def transformOp (req : Json) : Except String Json := do
   let floats ← pairsOf req "floats"
   let cfg : Transformer.Cfg := { pos := ← getBool req "pos", com := ← getBool req "com", floatOf := fun s => lookupS s floats }
   let tree ← decodeTree (← req.getObjVal? "tree")
-  let shape := Json.bool (Transformer.shapeRootB (Transformer.canonize tree))
+  let shape := Json.bool (Transformer.shapeRootB (Transformer.canonize tree) && Transformer.shapeCRootB (Transformer.canonize tree))
   match Transformer.transform cfg tree with
   | .error e => pure (Json.mkObj [("err", .str e.name), ("shape", shape)])
   | .ok r =>
